@@ -100,6 +100,31 @@ def job_shift(res, n, nb, it, axis, b, r, hist=False):
         prove(res, 'whole-cell shift%s n=%d it=%d %s-kick bunch %d row %d k=%+d: out[i] is bit-identical to in[i%+d], zeros flow in (all finite floats)%s' % (' after an earlier fractional kick of the same map' if hist else '', n, it, 'y' if axis else 'x', b, r, k, k, '' if inrange else ' [beyond the map\'s range: each cell is the shifted value or zero]'),
               s.pc, z3.Or(*bad), key='whole-cell-shift', cex_fn=cex, timeout_ms=400000)
 
+def job_ramp_fp(res, n, axis, r, it=2):
+    """single precision, EVERY float displacement o of row r with |o| <= 2: the table row KickMap::updateSM builds for linear interpolation names the two cells around the source position
+    n/2 + o and splits by its fractional part - index of the first node + weight of the second == n/2 + o within 1e-5 (integer part and fraction come from the same rounded number).  z3 IEEE theory."""
+    bld = maps_build(); mod = load_module(bld, MAPS_MODS)
+    snap, R, pre = maps_world(bld, n, 1, it)
+    km = 'kmy' if axis else 'kmx'; off = 'offy' if axis else 'offx'
+    F32s = z3.Float32()
+    ex = Exec(mod, snap, FPDom()); st = State()
+    o = z3.FP('o', F32s); st.pc += [z3.fpGEQ(o, z3.FPVal(-2.0, F32s)), z3.fpLEQ(o, z3.FPVal(2.0, F32s))]
+    for j in range(n): ex.write_bytes(st, R[off + '_data'] + 4 * j, bytes(4))
+    st.sym[R[off + '_data'] + 4 * r] = (4, 'f', o)
+    sts = run_paths(ex, st, 'e_km_swap', [R[km], R[off]]); account(res, ex, mod, sts)
+    tol = z3.FPVal(1e-5, F32s); nob = 0
+    for s in sts:
+        hp = ex.run1(s, 'e_hinfo', [R[km]]).retval
+        i0 = ex.load(s, hp + 8 * (r * it), IntTy(32)); i1 = ex.load(s, hp + 8 * (r * it + 1), IntTy(32))
+        w0 = ex.dom.z(ex.load(s, hp + 8 * (r * it) + 4, F32)); w1 = ex.dom.z(ex.load(s, hp + 8 * (r * it + 1) + 4, F32))
+        if not (isinstance(i0, int) and isinstance(i1, int)): raise Unsupported('symbolic table index')
+        pos = z3.fpAdd(z3.RNE(), z3.FPVal(float(i0), F32s), w1); want = z3.fpAdd(z3.RNE(), z3.FPVal(float(n // 2), F32s), o)
+        def cex(m): return {'replay': 'ramp', 'n': n, 'it': it, 'axis': axis, 'row': r, 'off': mval(m, o)}
+        prove(res, 'table row for linear interpolation, %s-kick n=%d row %d, EVERY float displacement in [-2,2] (case %s): nodes %d,%d are neighbours, first index + second weight == n/2 + displacement within 1e-5, weights sum to 1 within 1e-6' % ('y' if axis else 'x', n, r, [str(c)[:50] for c in s.pc[2:3]], i0, i1),
+              s.pc, z3.Or(z3.BoolVal(i1 != i0 + 1), z3.Not(z3.fpLEQ(z3.fpAbs(z3.fpSub(z3.RNE(), pos, want)), tol)), z3.Not(z3.fpLEQ(z3.fpAbs(z3.fpSub(z3.RNE(), z3.fpAdd(z3.RNE(), w0, w1), z3.FPVal(1.0, F32s))), z3.FPVal(1e-6, F32s)))),
+              key='ramp-float', cex_fn=cex, timeout_ms=400000); nob += 1
+    witness(res, 'table obligations exist for several integer parts (n=%d axis=%d)' % (n, axis), [], z3.BoolVal(nob >= 4))
+
 def job_poly(res, n, it, axis, r, kmax):
     """fractional shift off = k + f of a polynomial row of degree < it with symbolic coefficients: interior outputs equal p(y + off)"""
     bld = maps_build(); mod = load_module(bld, MAPS_MODS)
@@ -162,6 +187,13 @@ def replayer(bld):
                 got = o['out'][(r * n + i) if axis else (i * n + r)]; dev = max(dev, abs(got - pv(i + offf)))
             lim = 2e-5 * max(1.0, sum(abs(x) for x in cs)) * n ** 3
             return (dev > lim, 'native polynomial row: max |out - p(y+off)| = %.3g (limit %.3g)' % (dev, lim))
+        if what == 'ramp':
+            r = c['row']; offv = f32(float(c['off'])); data = [0.0] * (n * n)
+            for i in range(n): data[(r * n + i) if axis else (i * n + r)] = float(i)
+            off = [0.0] * n; off[r] = offv
+            o = native_run(bld, {'what': 'kick', 'n': n, 'nb': 1, 'it': it, 'seed': 7, 'axis': axis, 'data': data, 'off': off}, 'c02')
+            dev = max(abs(o['out'][(r * n + i) if axis else (i * n + r)] - (i + offv)) for i in range(3, n - 3))
+            return (dev > 1e-3, 'native: a linear ramp displaced by %.9g comes out as out[i] = i + displacement up to %.3g on the interior cells' % (offv, dev))
         return (False, 'unknown replay kind')
     return rp
 
@@ -171,6 +203,7 @@ def main(tier):
     chk = Check('C02', tier, '4/C02')
     bld = maps_build()
     jobs = [(job_weights, (it,)) for it in (1, 2, 3, 4)] + [(job_weights_fp, (it,)) for it in (1, 2, 3, 4)]
+    jobs += [(job_ramp_fp, a) for a in (((10, 1, 4), (10, 0, 4), (9, 1, 2)) if tier == 'quick' else [(n, ax, r) for n in (9, 10) for ax in (0, 1) for r in range(n)])]
     if tier == 'quick':
         jobs += [(job_shift, (n, nb, it, axis, (nb - 1) if axis else 0, r)) for n, nb in ((6, 2), (5, 1)) for it in (1, 2, 3, 4) for axis in (0, 1) for r in (0, 3)]
         jobs += [(job_shift, (n, nb, it, axis, (nb - 1) if axis else 0, r, True)) for n, nb in ((6, 2), (5, 1)) for it in (2, 4) for axis in (0, 1) for r in (3,)]
@@ -181,6 +214,7 @@ def main(tier):
         jobs += [(job_poly, (n, it, axis, r, 2)) for n in (10, 12) for it in (1, 2, 3, 4) for axis in (0, 1) for r in range(n)]
     chk.bounds = {'weights': 'every real f in [0,1) (exact reals); every float f for it<=2 in the IEEE theory; (1+e)-enclosure per weight for it=3,4; f=0 concrete IEEE',
                   'whole-cell shifts': 'grids 6 and 5 (quick) / 6,9 (thorough), every k with |k| < n, both axes, it=1..4, one row at a time with all n cells arbitrary finite floats (z3 FP theory, bit patterns compared; sign of zero not distinguished)',
+                  'table rows (float)': 'linear interpolation, grids 9/10, every float displacement in [-2,2] of one row: index + weight == source position (IEEE theory)',
                   'polynomials': 'grids 10, 11 (quick) / 10,12, |off| <= 1 (2), symbolic coefficients in [-1,1], degree < it, interior cells'}
     chk.assumptions = ['llvm.fmuladd evaluated unfused (LangRef allows either; with 0/1 weights both give the same bits)', 'NaN/inf data and displacements beyond 2^24 cells are outside the claim',
                        'RotationMap::genHInfo (2-D weights) is not encoded: outside the claim of this check']
